@@ -56,6 +56,14 @@ Theorem C15_get_placements : forall s m b m', Inv_m m -> m_get_placements s m = 
   (length (m_tasks m') + length b = length (m_tasks m))%nat /\ NoDup (ids b).
 Proof. exact get_placements_spec. Qed.
 Print Assumptions C15_get_placements.
+(* what the invariant says about the task map and the counters *)
+Theorem C15_map_iff_queued : forall m t, Inv_m m ->
+  (In (t_id t) (keys (m_tasks m)) <-> exists sq, In sq (m_queues m) /\ In (t_id t) (ids (snd sq))).
+Proof. exact map_iff_queued. Qed.
+Print Assumptions C15_map_iff_queued.
+Theorem C15_counter_counts : forall m t n, Inv_m m -> In (t, n) (m_tasks m) -> n = count_q t (m_queues m) /\ 1 <= n.
+Proof. exact counter_counts. Qed.
+Print Assumptions C15_counter_counts.
 Theorem C15_inv_start : forall wd started, world_wf wd -> NoDup started ->
   Inv_st wd (cw_start wd started) /\ st_recs (cw_start wd started) = [].
 Proof. exact cw_start_inv. Qed.
